@@ -380,11 +380,12 @@ func checkC13(P *Program, r *Result, tier string) {
 	}
 	// ---------- TRIPLE ----------
 	type caseInfo struct {
-		calls  []string // BinaryProtocol methods called in the case region
-		recs   int      // recursive calls
-		assert string   // asserted / stored Go type
-		stores []string // receiver-field stores (reader)
-		pos    token.Pos
+		calls   []string // BinaryProtocol methods called in the case region
+		recs    int      // recursive calls
+		assert  string   // asserted / stored Go type
+		rebuilt bool     // reader: the stored scalar is not directly the codec reader's result
+		stores  []string // receiver-field stores (reader)
+		pos     token.Pos
 	}
 	collect := func(fn *ssa.Function, sel func(v ssa.Value) bool) map[int64]*caseInfo {
 		out := map[int64]*caseInfo{}
@@ -452,6 +453,23 @@ func checkC13(P *Program, r *Result, tier string) {
 					case *ssa.MakeInterface:
 						if fn == rd {
 							ci.assert = types.TypeString(x.X.Type(), func(*types.Package) string { return "" })
+							// what is boxed is what the codec's reader handed back (not a value looked up or rebuilt from it)
+							if _, isSlice := x.X.Type().Underlying().(*types.Slice); !isSlice {
+								src := x.X
+								if cv, isCv := src.(*ssa.ChangeType); isCv {
+									src = cv.X
+								}
+								ex, isEx := src.(*ssa.Extract)
+								fromRead := false
+								if isEx && ex.Index == 0 {
+									if c, isCall := ex.Tuple.(*ssa.Call); isCall && isBinaryProtocolMethod(c.Common().StaticCallee()) && strings.HasPrefix(c.Common().StaticCallee().Name(), "Read") {
+										fromRead = true
+									}
+								}
+								if !fromRead {
+									ci.rebuilt = true
+								}
+							}
 						}
 					case *ssa.Store:
 						if f := recvFieldOf(fn, x.Addr); f != "" {
@@ -525,6 +543,9 @@ func checkC13(P *Program, r *Result, tier string) {
 				if !has(rc.calls, "ReadFieldBegin") || !has(lc.calls, "FieldStopLength") || !has(wc.calls, "WriteFieldStop") {
 					detail = fmt.Sprintf("struct case: reader %v, length %v, writer %v", rc.calls, lc.calls, wc.calls)
 				}
+			}
+			if detail == "" && rc.rebuilt {
+				detail = "the value stored by the reader is not what Read" + sp[0] + " handed back"
 			}
 			if detail == "" {
 				if rc.assert != sp[1] {
